@@ -761,7 +761,13 @@ def stepLine (s : DState) (line : String) : DState :=
     if line.endsWith "mismatches=0" then s else s.fail "C19" "readers-equal-sequential" line
   else if cmd == "rpool" then
     match Kind.ofString? (t[1]?.getD "") with
-    | some k => { s with pm := some (⟨k, nat! (t[2]?.getD "0"), nat! (t[3]?.getD "0"), nat! (t[4]?.getD "0")⟩, PoolM.init) }
+    | some k =>
+      -- the ownership part of the pool machine (`free`, `out`: which steps are enabled) does not depend on the size of
+      -- the buffers; the list-based heap makes clearing a buffer of n samples cost n^2, so logs of pools of large
+      -- buffers are validated against the machine of a pool of the same kind and channel count with at most 8 frames
+      -- (freshness over the real capacity is observed by the harness on the real buffer: the flags of `rget`)
+      let cap := min (nat! (t[4]?.getD "0")) 8
+      { s with pm := some (⟨k, nat! (t[2]?.getD "0"), min (nat! (t[3]?.getD "0")) cap, cap⟩, PoolM.init) }
     | none => s.divergeK "rpool-parse" "-" line
   else if cmd == "rget" then
     match s.pm with
